@@ -19,7 +19,12 @@ pub enum RefSink {
 }
 
 pub struct RefResult {
+    /// expected multiset at the "out" probe of every step: (path, output index) -> one entry per
+    /// iteration seen at that point (None = schedule dependent, not asserted)
+    pub expect: BTreeMap<(Vec<usize>, usize), Vec<Option<Vec<E>>>>,
     pub sinks: Vec<(SinkKind, RefSink)>,
+    /// for sinks fed by a path on which order is determined: the expected sequence
+    pub sink_seq: Vec<Option<Vec<E>>>,
     /// number of rounds each loop (in plan order) must execute
     pub loop_rounds: Vec<usize>,
     /// expected state (round, acc) at the start of each round, per loop
@@ -223,14 +228,16 @@ impl<'a> Interp<'a> {
         let mut it = Interp {
             sc,
             res: RefResult {
+                expect: BTreeMap::new(),
                 sinks: vec![],
+                sink_seq: vec![],
                 loop_rounds: vec![],
                 loop_states: vec![],
                 notes: vec![],
             },
         };
         let mut streams: Vec<Option<RS>> = Vec::new();
-        it.steps(&sc.steps, &mut streams, &mut Vec::new(), true);
+        it.steps(&sc.steps, &mut streams, &mut Vec::new(), true, &[]);
         it.res
     }
 
@@ -248,8 +255,30 @@ impl<'a> Interp<'a> {
     }
 
     /// `top`: sinks are recorded only at top level
-    fn steps(&mut self, steps: &[Step], streams: &mut Vec<Option<RS>>, outer: &mut Vec<Option<RS>>, top: bool) {
-        for st in steps {
+    fn note(&mut self, prefix: &[usize], si: usize, out: usize, s: &RS) {
+        let mut path = prefix.to_vec();
+        path.push(si);
+        self.res
+            .expect
+            .entry((path, out))
+            .or_default()
+            .push(if s.weak { None } else { Some(s.v.clone()) });
+    }
+
+    fn steps(&mut self, steps: &[Step], streams: &mut Vec<Option<RS>>, outer: &mut Vec<Option<RS>>, top: bool, prefix: &[usize]) {
+        for (si, st) in steps.iter().enumerate() {
+            let before = streams.len();
+            self.step(st, streams, outer, top, prefix, si);
+            for (k, idx) in (before..streams.len()).enumerate() {
+                if let Some(s) = streams[idx].clone() {
+                    self.note(prefix, si, k, &s);
+                }
+            }
+        }
+    }
+
+    fn step(&mut self, st: &Step, streams: &mut Vec<Option<RS>>, outer: &mut Vec<Option<RS>>, top: bool, prefix: &[usize], si: usize) {
+        {
             match st {
                 Step::Source(i) => {
                     let src = &self.sc.sources[*i];
@@ -299,7 +328,9 @@ impl<'a> Interp<'a> {
                 }
                 Step::Loop(i, spec) => {
                     let s = Self::take(streams, outer, *i, *i < SIDE_BASE);
-                    let outs = self.eval_loop(s, spec, streams);
+                    let mut lp = prefix.to_vec();
+                    lp.push(si);
+                    let outs = self.eval_loop(s, spec, streams, &lp);
                     for o in outs {
                         streams.push(Some(o));
                     }
@@ -320,6 +351,7 @@ impl<'a> Interp<'a> {
                             }
                         };
                         self.res.sinks.push((*kind, r));
+                        self.res.sink_seq.push(if s.ordered && !s.weak { Some(s.v.clone()) } else { None });
                     }
                 }
             }
@@ -444,7 +476,7 @@ impl<'a> Interp<'a> {
         }
     }
 
-    fn eval_loop(&mut self, input: RS, spec: &LoopSpec, outer: &mut Vec<Option<RS>>) -> Vec<RS> {
+    fn eval_loop(&mut self, input: RS, spec: &LoopSpec, outer: &mut Vec<Option<RS>>, lpath: &[usize]) -> Vec<RS> {
         let agg = spec.agg;
         let mut state: (u64, i64) = (0, if matches!(agg, AggFn::Min | AggFn::Max) { agg.unit() } else { 0 });
         let mut cur = input.v.clone();
@@ -464,8 +496,17 @@ impl<'a> Interp<'a> {
                 weak,
                 ordered: false,
             })];
-            for st in &spec.body {
-                self.steps(std::slice::from_ref(st), &mut local, outer, false);
+            for (bi, st) in spec.body.iter().enumerate() {
+                let mut bp = lpath.to_vec();
+                bp.push(10_000 + bi);
+                let before = local.len();
+                self.step(st, &mut local, outer, false, &bp, 0);
+                // the probe sits before the state reader: note the value before folding the state in
+                for (k, idx) in (before..local.len()).enumerate() {
+                    if let Some(s) = local[idx].clone() {
+                        self.note(&bp, 0, k, &s);
+                    }
+                }
                 if spec.use_state {
                     if let Some(Some(last)) = local.last_mut() {
                         for e in last.v.iter_mut() {
